@@ -150,3 +150,16 @@ Example C03_ex_gen_store : gen_store (mk_ity 1 false false) 261 [255] = (Err Ove
                            gen_store (mk_ity 2 true false) (-2) [0; 0] = (Ok tt, [254; 255]) /\
                            gen_fficallback (mk_ity 2 true false) (-2) (repeat 170 8) = (Ok tt, [254; 255; 255; 255; 255; 255; 255; 255]).
 Proof. vm_compute. repeat split. Qed.
+
+(* "one function for all paths" as an obligation on the source: each store path the property names —
+   ffi.new initialiser (direct_newp), p[i] = v (cdata_ass_sub), p.f = v (cdata_setattro ->
+   convert_field_from_object), struct / array initialisers, ABI-mode and API-mode global setters
+   (dl_write_variable; lib_setattr -> write_global_var), the ABI argument loop of cdata_call, callback
+   results, and API-mode _cffi_to_c through cffi_exports[] — textually calls convert_from_object, whose
+   integer branches are the regenerated store_signed_prog / store_unsigned_prog above.  The facts are
+   regenerated from src/c/_cffi_backend.c, lib_obj.c, cglob.c on every run (tools/props/c03_regen.py). *)
+Theorem C03_paths_reach_convert_from_object : forallb (fun b : bool => b) all_paths = true.
+Proof. exact paths_reach. Qed.
+Print Assumptions C03_paths_reach_convert_from_object.
+Example C03_ex_paths : List.length all_paths = 12%nat /\ path_direct_newp = true /\ path_global_api = true.
+Proof. repeat split. Qed.
